@@ -34,6 +34,14 @@ Definition rank_spacing_claim : Prop :=
 Definition counts_claim : Prop :=
   forall pred l1 l2 m, Permutation l1 l2 -> s_counts pred l1 m = s_counts pred l2 m.
 
+(* keys collected from the map, then sorted with a strict total order before any use *)
+Definition sorted_claim : Prop :=
+  forall (A : Type) (ltb : A -> A -> bool),
+    (forall a, ltb a a = false) ->
+    (forall a b c, ltb a b = true -> ltb b c = true -> ltb a c = true) ->
+    (forall a b, ltb a b = false -> ltb b a = false -> a = b) ->
+    forall keys keys', NoDup keys -> Permutation keys keys' -> ssort ltb keys = ssort ltb keys'.
+
 Definition analysed : list site := [
   (* prevMarginTop[o] = math.Max(prevMarginTop[o], margin.Top) and the Bottom/Left/Right variants:
      one slot per object, max with a loop-invariant constant *)
@@ -46,8 +54,7 @@ Definition analysed : list site := [
   mkSite dagre "adjustRankSpacing" 0 "8871a962" OrderSensitive rank_spacing_claim;
   mkSite dagre "adjustRankSpacing" 1 "3744f284" OrderSensitive rank_spacing_claim;
   (* float64 levels collected, sort.Slice with < on distinct non-NaN keys *)
-  mkSite dagre "getRanks" 0 "3abf38a6" Sorted
-    (forall keys keys', NoDup keys -> Permutation keys keys' -> ssort Z.ltb keys = ssort Z.ltb keys');
+  mkSite dagre "getRanks" 0 "3abf38a6" Sorted sorted_claim;
   (* ranges over `seen` while checkBelow/processQueue insert into it *)
   mkSite dagre "shiftReachableDown" 0 "fce4206b" OrderSensitive
     (exists (step : nat -> list nat * Z) (seen : list nat),
@@ -74,10 +81,11 @@ Definition analysed : list site := [
        s_inverse sq rect l1 s = s_inverse sq rect l2 s);
   (* fills a fresh map keyed by the rune *)
   mkSite "lib/textmeasure/atlas.go" "NewAtlas" 0 "89d2168c" Commute fill_claim;
-  (* compile path (d2ir.resolveSubstitutions for block strings); also C08-block-string-variable-replace-order *)
-  mkSite "lib/textmeasure/substitutions.go" "replaceVariables" 0 "75623a11" OrderSensitive
-    (exists (l1 l2 : list (nat * list tok)) (s : list tok),
-       Permutation l1 l2 /\ NoDup (map fst l1) /\ loop _ _ _ s_replace l1 s <> loop _ _ _ s_replace l2 s)
+  (* compile path (d2ir.resolveSubstitutions for block strings).  Until /repo commit "fix: ... replaceVariables"
+     (C08-block-string-variable-replace-order) this loop substituted the variables one after another in map
+     order (order-sensitive: SiteModels.s_replace_variables_order_sensitive, statement hash 75623a11); it now
+     only collects the keys, which are then sorted by (length descending, text): a total order on distinct keys *)
+  mkSite "lib/textmeasure/substitutions.go" "replaceVariables" 0 "0beb1c95" Sorted sorted_claim
 ].
 
 Definition covers (a : site) (r : string * string * nat * string * string * string) : bool :=
@@ -100,7 +108,7 @@ Proof.
   - exact s_margin_order_insensitive.
   - exact s_rank_spacing_order_sensitive.
   - exact s_rank_spacing_order_sensitive.
-  - exact s_getranks_order_insensitive.
+  - exact collect_then_sort_order_insensitive.
   - exact s_range_over_growing_map_order_sensitive.
   - exact s_counts_order_insensitive.
   - exact s_counts_order_insensitive.
@@ -110,7 +118,7 @@ Proof.
   - exact s_fill_order_insensitive.
   - exact s_inverse_order_insensitive.
   - exact s_fill_order_insensitive.
-  - exact s_replace_variables_order_sensitive.
+  - exact collect_then_sort_order_insensitive.
 Qed.
 
 (* side condition of site d2target.init on the real table: only SQUARE_TYPE is a duplicated value *)
